@@ -292,5 +292,5 @@ int main(int argc, char **argv)
         fprintf(stderr, "usage: c20_driver <case file>\n");
         return 2;
     }
-    return runCases(readLines(argv[1]), analyse, 20);
+    return runCases(readLines(argv[1]), analyse, 60);
 }
